@@ -107,7 +107,8 @@ def body_cycle(ctx, item):
     got = []
 
     @hseed(derive_seed(ctx.seed, "C07", item["variant"], item["rep"]))
-    @settings(max_examples=1, database=None, deadline=None, phases=[Phase.generate], suppress_health_check=list(HealthCheck))
+    # Hypothesis always starts with the simplest example: take the fourth one
+    @settings(max_examples=4, database=None, deadline=None, phases=[Phase.generate], suppress_health_check=list(HealthCheck))
     @given(linear_case(VARIANTS[item["variant"]]))
     def t(case):
         got.append(case)
